@@ -618,3 +618,9 @@ func Hex(b []byte, n int) string {
 	}
 	return fmt.Sprintf("%x...(%d bytes in total)", b[:n], len(b))
 }
+
+// SaysCorrupt reports whether err is one of the package's verdicts about the stream (bad checksum, bad header) - as
+// opposed to an answer about the call (for instance "already closed").
+func SaysCorrupt(err error) bool {
+	return errors.Is(err, lzhuf.ErrChecksum) || errors.Is(err, lzhuf.ErrHeader)
+}
